@@ -29,6 +29,13 @@ type CLICase struct {
 	Comments []string `json:"comments,omitempty"` // one per source line ("" = none), UTF-8 text
 	Enc      string   `json:"enc,omitempty"`      // sjis | utf8
 	Prefill  int      `json:"prefill,omitempty"`  // bytes of junk in the destination before a failing run
+	// comment: Preamble bytes of ASCII-only comment lines come first (encoding detection must look at the whole file);
+	// LongLine > 0: one ASCII comment line of that many bytes is inserted after the first line; EOL is the line ending
+	Preamble int    `json:"preamble,omitempty"`
+	LongLine int    `json:"longline,omitempty"`
+	EOL      string `json:"eol,omitempty"`
+	// sjisstr: Strs are the texts of DB string operands; the file holds them Shift_JIS encoded
+	Strs []string `json:"strs,omitempty"`
 }
 
 var posRe = regexp.MustCompile(`[0-9]+:[0-9]+`)
@@ -218,7 +225,25 @@ func checkC19(c CLICase) Verdict {
 			}
 			sb.WriteString("\n")
 		}
-		v.Key = "comment|" + c.Enc + "|" + sb.String()
+		body := sb.Bytes()
+		if c.LongLine > 0 {
+			nl := bytes.IndexByte(body, '\n') + 1
+			banner := append([]byte("; "), bytes.Repeat([]byte("-="), c.LongLine/2)...)
+			body = append(append(append([]byte{}, body[:nl]...), append(banner, '\n')...), body[nl:]...)
+		}
+		if c.Preamble > 0 {
+			var pre bytes.Buffer
+			for pre.Len() < c.Preamble {
+				pre.WriteString("; ---------------------------------------------------------------- ascii only\n")
+			}
+			body = append(pre.Bytes(), body...)
+		}
+		if c.EOL != "" && c.EOL != "\n" {
+			body = bytes.ReplaceAll(body, []byte("\n"), []byte(c.EOL))
+		}
+		sb.Reset()
+		sb.Write(body)
+		v.Key = fmt.Sprintf("comment|%s|%d|%d|%q|", c.Enc, c.Preamble, c.LongLine, c.EOL) + string(head(body, 4000)) + fmt.Sprint(hash64(string(body)))
 		in := filepath.Join(dir, "c-src.nas")
 		dst := filepath.Join(dir, "c-dst.bin")
 		os.WriteFile(in, sb.Bytes(), 0o644)
@@ -243,7 +268,70 @@ func checkC19(c CLICase) Verdict {
 		}
 		v.NonTrivial = ncom > 0
 		v.Class = "comment-" + c.Enc
+		if c.Preamble > 0 || c.LongLine > 0 {
+			v.Class += ",big"
+		}
+		if c.EOL != "" && c.EOL != "\n" {
+			v.Class += fmt.Sprintf(",eol=%q", c.EOL)
+		}
 		v.Sample = map[string]any{"enc": c.Enc, "source_quoted": fmt.Sprintf("%q", head(sb.Bytes(), 200))}
+		return v
+
+	case "sjisstr":
+		// string operands are data "byte for byte": a Shift_JIS source must yield its strings' Shift_JIS bytes
+		enc := japanese.ShiftJIS.NewEncoder()
+		var file, ref bytes.Buffer
+		file.WriteString(c.Src)
+		ref.WriteString(c.Src)
+		for _, txt := range c.Strs {
+			b, err := enc.Bytes([]byte(txt))
+			if err != nil || bytes.ContainsAny(b, "\"\\\n\r") {
+				v.Skip = "text not representable in Shift_JIS or holding a quote/backslash byte"
+				return v
+			}
+			file.WriteString("\tDB \"")
+			file.Write(b)
+			file.WriteString("\",0\n")
+			ref.WriteString("\tDB ")
+			for _, x := range b {
+				fmt.Fprintf(&ref, "0x%02x,", x)
+			}
+			ref.WriteString("0\n")
+		}
+		v.Key = "sjisstr|" + ref.String()
+		in := filepath.Join(dir, "s-src.nas")
+		dst := filepath.Join(dir, "s-dst.bin")
+		os.WriteFile(in, file.Bytes(), 0o644)
+		os.Remove(dst)
+		r := asm.RunCLI(dir, in, dst)
+		if r.Err != nil {
+			v.Skip = "binary did not run"
+			return v
+		}
+		want := asm.Assemble(ref.String())
+		if want.Failed() {
+			v.Skip = "byte-list form does not assemble"
+			return v
+		}
+		if r.Exit != 0 {
+			return fail("exit", "a source with Shift_JIS string literals: the binary exits %d: %s", r.Exit, tailStr(r.Stdout+r.Stderr, 200))
+		}
+		got, _ := os.ReadFile(dst)
+		os.Remove(dst)
+		if !bytes.Equal(got, want.Out) {
+			kind := "bytes"
+			// the strings re-encoded as UTF-8: the recorded finding
+			var utf bytes.Buffer
+			utf.WriteString(c.Src)
+			for _, txt := range c.Strs {
+				utf.WriteString("\tDB \"" + txt + "\",0\n")
+			}
+			if u := asm.Assemble(utf.String()); !u.Failed() && bytes.Equal(u.Out, got) {
+				kind = "transcoded-to-utf8"
+			}
+			return fail(kind, "Shift_JIS string literals are not emitted byte for byte: file holds % x, the source's string bytes give % x\n--- source (quoted) ---\n%q", head(got, 40), head(want.Out, 40), head(file.Bytes(), 300))
+		}
+		v.NonTrivial = len(c.Strs) > 0
 		return v
 
 	case "failing":
@@ -295,7 +383,7 @@ var failingSrcs = []string{"\tMOV AX,\n", "\tMOV AX,1\n\tGARBAGE here\n", "\tDB 
 
 var propC19 = &Prop[CLICase]{
 	ID:     "C19",
-	Rule:   "runs of the gosk binary: argument vectors of 0..4 positional arguments (+ -d) over existing source / destination, missing file, directory, path below a regular file, path in a missing directory, list file; generated programs (C03/C05/C08 generators, with and without -d) compared with the in-process API; sources whose comments hold Shift_JIS or UTF-8 Japanese text (trail bytes 0x5c/0x7c, half-width katakana) versus the comment-free source; failing runs into an absent or pre-filled destination; oracle: exit 16 for < 2 positional arguments, 17 for unreadable source or uncreatable output, non-zero plus a line:col position on a parse error, exit 0 and file = exact image otherwise, commented = uncommented, after a failing run the destination is absent, empty or unchanged; non-trivial = the binary ran and a contract clause applied; distinct by case text",
+	Rule:   "runs of the gosk binary: argument vectors of 0..4 positional arguments (+ -d) over existing source / destination, missing file, directory, path below a regular file, path in a missing directory, list file; generated programs (C03/C05/C08 generators, with and without -d) compared with the in-process API; sources whose comments hold Shift_JIS or UTF-8 Japanese text (trail bytes 0x5c/0x7c, half-width katakana) versus the comment-free source, also behind 1..66 KiB of ASCII-only lines, with a 5/70 KiB comment line, and with LF/CRLF/CR line endings; degenerate sources (empty, line breaks only, comments only); sources whose DB strings are Shift_JIS text versus the same bytes written as numbers; failing runs into an absent or pre-filled destination; oracle: exit 16 for < 2 positional arguments, 17 for unreadable source or uncreatable output, non-zero plus a line:col position on a parse error, exit 0 and file = exact image otherwise, commented = uncommented, after a failing run the destination is absent, empty or unchanged; non-trivial = the binary ran and a contract clause applied; distinct by case text",
 	Assume: []string{"the sandbox runs as root, so permission bits cannot make a path unwritable; 'a directory', 'a path below a regular file' and 'a path in a missing directory' stand in for unwritable destinations"},
 	Gen: func(t *rapid.T) CLICase {
 		switch rapid.IntRange(0, 9).Draw(t, "kind") {
@@ -333,6 +421,10 @@ var propC19 = &Prop[CLICase]{
 			}
 			if rapid.IntRange(0, 5).Draw(t, "breakit") == 0 {
 				src += rapid.SampledFrom(failingSrcs).Draw(t, "broken")
+			}
+			if rapid.IntRange(0, 9).Draw(t, "tiny") == 0 {
+				// degenerate programs: nothing at all, only line breaks, only comments
+				src = rapid.SampledFrom([]string{"", "\n", "\n\n", "; nothing\n", "# nothing", " \t\n", "\r\n", "\tHLT", "\tHLT\n"}).Draw(t, "tinysrc")
 			}
 			return CLICase{Kind: "prog", Src: src, Debug: rapid.IntRange(0, 4).Draw(t, "debug") == 0, Prefill: rapid.SampledFrom([]int{0, 0, 70000, 200000}).Draw(t, "pprefill")}
 		case 6, 7, 8:
@@ -374,7 +466,22 @@ var propC19 = &Prop[CLICase]{
 					coms[i] = hex.EncodeToString(b)
 				}
 			}
-			return CLICase{Kind: "comment", Src: src, Comments: coms, Enc: enc}
+			cc := CLICase{Kind: "comment", Src: src, Comments: coms, Enc: enc}
+			if rapid.IntRange(0, 3).Draw(t, "big") == 0 {
+				cc.Preamble = rapid.SampledFrom([]int{0, 1100, 4200, 66000}).Draw(t, "preamble")
+				cc.LongLine = rapid.SampledFrom([]int{0, 0, 5000, 70000}).Draw(t, "longline")
+			}
+			cc.EOL = rapid.SampledFrom([]string{"\n", "\n", "\r\n", "\r"}).Draw(t, "ceol")
+			return cc
+		case 9:
+			if rapid.Bool().Draw(t, "sjisstr") {
+				var strs []string
+				for k := rapid.IntRange(1, 3).Draw(t, "nstrs"); k > 0; k-- {
+					strs = append(strs, rapid.SampledFrom(jpTexts).Draw(t, "jpstr"))
+				}
+				return CLICase{Kind: "sjisstr", Src: "\tORG 0x7c00\n\tMOV SI,qmsg\nqmsg:\n", Strs: strs}
+			}
+			return CLICase{Kind: "failing", Src: goodSrc + rapid.SampledFrom(failingSrcs).Draw(t, "fsrc"), Prefill: rapid.SampledFrom([]int{0, 3, 64, 4096}).Draw(t, "prefill")}
 		default:
 			return CLICase{Kind: "failing", Src: goodSrc + rapid.SampledFrom(failingSrcs).Draw(t, "fsrc"), Prefill: rapid.SampledFrom([]int{0, 3, 64, 4096}).Draw(t, "prefill")}
 		}
